@@ -315,8 +315,8 @@ def applyUpd (u : Nat → Option Int) : List (Int × Option Loc) → Nat → Sto
 
 def nth (vs : List Int) (n : Nat) : Int := (vs[n]?).getD 0
 
-/-- Tracing evaluation.  `skip`: `e` is the argument spine of an inquiry intrinsic, whose
-first argument is not evaluated (its value is not accessed).  Operands are evaluated left
+/-- Tracing evaluation.  `skip`: `e` is the argument spine of an inquiry intrinsic: the value
+of its first argument is not accessed (only the subscripts of that argument are evaluated).  Operands are evaluated left
 to right.  Intrinsic *functions* and PURE user *functions* do not modify their arguments
 (Fortran 2008 C1276/C1283: dummies of a pure function are INTENT(IN) or VALUE); any other
 callee may store into every argument that is passed by reference. -/
@@ -357,8 +357,18 @@ def evalT (ω : Oracle) (tb : Nat → IAttr) : Expr → Bool → Store → R
   | .nil, _, σ => ⟨0, σ, [], none, []⟩
   | .cons e rest, skip, σ =>
       if skip then
-        let r2 := evalT ω tb rest false σ
-        ⟨0, r2.st, r2.ev, none, (0, none) :: r2.args⟩
+        -- the inquired object: its value is not accessed, but its subscripts are evaluated
+        -- (`size(w(idx(j):))` needs `idx(j)`)
+        let r1 : R := match e with
+          | .idx1 _ i => evalT ω tb i false σ
+          | .idx2 _ i j =>
+              let a := evalT ω tb i false σ
+              let b := evalT ω tb j false a.st
+              ⟨0, b.st, a.ev ++ b.ev, none, []⟩
+          | .idxs _ _ is => evalT ω tb is false σ
+          | _ => ⟨0, σ, [], none, []⟩
+        let r2 := evalT ω tb rest false r1.st
+        ⟨0, r2.st, r1.ev ++ r2.ev, none, (0, none) :: r2.args⟩
       else
         let r1 := evalT ω tb e false σ
         let r2 := evalT ω tb rest false r1.st
